@@ -32,6 +32,23 @@ func checkSchedulerAdmission(c *core.Ctx, r *core.Report) {
 	startM := c.Obj("pkg/segment/query", "QuerySegmentRequest.GetStartEpochMs")
 	endM := c.Obj("pkg/segment/query", "QuerySegmentRequest.GetEndEpochMs")
 
+	// parameters of a predicate function stand for the arguments of the call being resolved (the mode and the
+	// cut-off may be read by the caller and handed in)
+	bind := map[*ssa.Parameter]ssa.Value{}
+	unbind := func(v ssa.Value) ssa.Value {
+		for i := 0; i < 4; i++ {
+			p, ok := v.(*ssa.Parameter)
+			if !ok {
+				return v
+			}
+			b, ok := bind[p]
+			if !ok {
+				return v
+			}
+			v = b
+		}
+		return v
+	}
 	// --- facts about the sort mode that hold in a block (or on an edge out of it)
 	modeTest := func(b *ssa.BasicBlock) (k int64, eqSucc int, ok bool) {
 		ifi, isIf := core.LastIf(b)
@@ -46,6 +63,7 @@ func checkSchedulerAdmission(c *core.Ctx, r *core.Report) {
 		if _, isConst := x.(*ssa.Const); isConst {
 			x, y = y, x
 		}
+		x = unbind(x)
 		ld, isLd := x.(*ssa.UnOp)
 		if !isLd {
 			return 0, 0, false
@@ -100,6 +118,7 @@ func checkSchedulerAdmission(c *core.Ctx, r *core.Report) {
 	flip := map[token.Token]token.Token{token.GEQ: token.LEQ, token.LEQ: token.GEQ, token.GTR: token.LSS, token.LSS: token.GTR, token.EQL: token.EQL, token.NEQ: token.NEQ}
 	negate := map[string]string{">=": "<", "<": ">=", "<=": ">", ">": "<=", "==": "!=", "!=": "=="}
 	leaf := func(v ssa.Value) string {
+		v = unbind(v)
 		switch x := v.(type) {
 		case *ssa.Call:
 			if core.IsCallTo(x, startM) {
@@ -179,10 +198,26 @@ func checkSchedulerAdmission(c *core.Ctx, r *core.Report) {
 			if callee == nil || callee.Blocks == nil || !core.IsRepoPkg(core.FnPkgPath(callee)) || callee.Signature.Results().Len() != 1 {
 				return ""
 			}
+			saved := map[*ssa.Parameter]ssa.Value{}
+			for i, p := range callee.Params {
+				if i < len(x.Call.Args) {
+					if old, had := bind[p]; had {
+						saved[p] = old
+					}
+					bind[p] = unbind(x.Call.Args[i])
+				}
+			}
 			var vals []string
 			for _, ret := range core.Returns(callee) {
 				if feasible(ret.Block(), nil, mode) {
 					vals = append(vals, resolve(ret.Results[0], mode, depth+1))
+				}
+			}
+			for _, p := range callee.Params {
+				if old, had := saved[p]; had {
+					bind[p] = old
+				} else {
+					delete(bind, p)
 				}
 			}
 			return same(vals)
